@@ -170,6 +170,19 @@ def check_gdist1g(prog, rep, c):
 
     names, src, node = _unique_triple(prog, f)
     if names is None:
+        # loop-free formulation: chromosome starts located by numpy.diff(labels, prepend=<constant>) != 0.  The first marker is then a start only if its label differs
+        # from the constant - a first chromosome that carries that very label (0 is a valid label) gets a finite distance and never the probability one half
+        for c_ in walk_no_nested(f.node):
+            if isinstance(c_, ast.Call) and prog.dotted(f.module, c_.func) == "numpy.diff":
+                kw_, _ = kwargs_of(c_)
+                pre = kw_.get("prepend")
+                arg0 = c_.args[0] if c_.args else None
+                islab = arg0 is not None and ("chrgrp" in dump(arg0) or dump(arg0) == f.params()[1])
+                if pre is not None and islab and isinstance(pre, (ast.Constant, ast.UnaryOp)):
+                    rep.violate("R2-sequential", construct, "chromosome starts are the positions where %s is non-zero: the first marker is a start only when its label differs from the "
+                                "constant %s, so a first chromosome labelled %s gets a finite sequential distance instead of +inf (crossover probability below one half at that "
+                                "chromosome start)" % (dump(c_)[:50], dump(pre), dump(pre)), where(f, c_), "the first marker of the view is always a chromosome start", dump(c_)[:50])
+                    return
         rep.unrec("R2-sequential", construct, "no (values, first index, counts) = numpy.unique(...) found")
         return
     u, S, C = names
